@@ -14,9 +14,10 @@
       wide.  `repeat(auto-fill, 0px)` in a 10-wide grid gives 11 explicit columns, in a 20-wide grid 21: a child at
       column line 15 sits in an implicit `auto` column in the first and in an explicit 0px column in the second.
 
-  ALSO: `Scalable (Style Rat)` (Model/Scale.lean) predates `Style.grid` and does not scale the lengths of
-  `grid_template_*` / `grid_auto_*`; `scale_misses_grid_tracks` shows `C04.AlgsHomogeneous.grid` fails for that trivial
-  reason on any fixed-size track.  The positive statements below use `C04.gscale`, which scales them.
+  `Scalable (Style Rat)` (Model/Scale.lean) scales `Style.grid` too: the lengths of `grid_template_*` / `grid_auto_*`
+  (fixed track sizes, `fit-content(px)` arguments, `minmax` bounds); `scale_scales_grid`, `scale_scales_grid_tracks`.
+  Every statement below is in terms of that ONE `scale` (`C04.gscale`, used in the lemma files, is an abbreviation of it:
+  `gscale_eq_scale`).
 
   WHAT IS TRUE:
     * `grid_homogeneous_modulo`: `compute_grid_layout` with `compute_explicit_grid_size_in_axis` (`ceg`) and
@@ -43,6 +44,8 @@
       `k` (`ConstFree`, decidable), i.e. no comparison against a constant is decided differently.  It holds on the
       intrinsic example (`inGrid_constFree`, k = 4 and 1/4; replayed on the real code) and fails on both witnesses
       (`witnesses_not_constFree`).
+    * the tree level (every tree; grid containers anywhere): Props/C04Tree.lean — `tree_homogeneous_joint_all_trees`
+      (unconditional, constants scaled too), `tree_homogeneous_all_trees_partial` (real algorithms, fixed-track grids).
   Helper lemmas: Lemmas/GridScaleStages.lean, GridScaleInst.lean, GridScaleRel.lean, GridScalePure1–4.lean,
   GridScaleProg1–3.lean, GridScaleTop.lean, GridScaleTop2.lean, GridScaleFixed.lean (tier 1);
   GridScaleTheta.lean, GridScaleJoint.lean, GridScaleFr1–3.lean, GridScaleSz1–4.lean, GridScaleExpand.lean,
@@ -78,7 +81,7 @@ theorem grid_homogeneous_modulo (hk : 0 < k) {FT : GridTrack Rat → Prop} (hFT 
       .ok l → TPs FT l)
     (hTPr : ∀ counts has l, initializeGridTracks counts s.grid.templateRows s.grid.autoRows s.gap.height has =
       .ok l → TPs FT l) :
-    gridAlgG ceg' ts' (gscale k s) (cs.map (gscale k)) (scale k inp) = scaleProg k (gridAlgG ceg ts s cs inp) :=
+    gridAlgG ceg' ts' (scale k s) (cs.map (scale k)) (scale k inp) = scaleProg k (gridAlgG ceg ts s cs inp) :=
   gridAlgG_scale hFT hts hk ceg' ceg s cs inp hcol hrow hTPc hTPr
 
 /-- the parametrised algorithm at the real parameters is `compute_grid_layout` -/
@@ -121,7 +124,7 @@ interaction program: on a container all of whose tracks are fixed-size, the prog
 scaled program -/
 theorem grid_homogeneous_partial (hk : 0 < k) (s : Style Rat) (cs : List (Style Rat)) (inp : LayoutInput Rat)
     (h : GridFixed s inp) :
-    gridAlg (gscale k s) (cs.map (gscale k)) (scale k inp) = scaleProg k (gridAlg s cs inp) := by
+    gridAlg (scale k s) (cs.map (scale k)) (scale k inp) = scaleProg k (gridAlg s cs inp) := by
   obtain ⟨h1, h2, h3, h4⟩ := h
   rw [← gridAlgG_real]
   exact gridAlgG_scale fixedLen_prop (trackSizing_fixed_hom hk) hk _ _ s cs inp
@@ -152,7 +155,7 @@ lengths AND the three constants by `k` scales the program.  The three constants 
 `compute_grid_layout`. -/
 theorem grid_homogeneous_joint (hk : 0 < k) (one θd θi : Rat) (s : Style Rat) (cs : List (Style Rat))
     (inp : LayoutInput Rat) :
-    gridAlgT (scale k one) (scale k θd) (scale k θi) (gscale k s) (cs.map (gscale k)) (scale k inp) =
+    gridAlgT (scale k one) (scale k θd) (scale k θi) (scale k s) (cs.map (scale k)) (scale k inp) =
       scaleProg k (gridAlgT one θd θi s cs inp) :=
   gridAlgT_scale hk one θd θi s cs inp
 
@@ -171,7 +174,7 @@ instance (k : Rat) (s : Style Rat) (cs : List (Style Rat)) (inp : LayoutInput Ra
 /-- the run of the scaled container against the scaled children, in terms of the original container -/
 theorem grid_scaled_run (hk : 0 < k) (s : Style Rat) (cs : List (Style Rat)) (inp : LayoutInput Rat)
     (orc : Nat → LayoutInput Rat → LayoutOutput Rat) :
-    runO (scaleOrc k orc) (gridAlg (gscale k s) (cs.map (gscale k)) (scale k inp)) =
+    runO (scaleOrc k orc) (gridAlg (scale k s) (cs.map (scale k)) (scale k inp)) =
       scale k (runO orc (gridAlgT (scale k⁻¹ 1) (scale k⁻¹ thresholdDist) (scale k⁻¹ thresholdItem) s cs inp)) := by
   rw [← runO_scaleProg hk, ← grid_homogeneous_joint hk, scale_inv_cancel hk, scale_inv_cancel hk, scale_inv_cancel hk,
     gridAlgT_real]
@@ -180,14 +183,14 @@ theorem grid_scaled_run (hk : 0 < k) (s : Style Rat) (cs : List (Style Rat)) (in
 container, the run of the scaled container against the scaled children is the scaled run (output, queries, layouts) -/
 theorem grid_homogeneous_run_partial (hk : 0 < k) (s : Style Rat) (cs : List (Style Rat)) (inp : LayoutInput Rat)
     (orc : Nat → LayoutInput Rat → LayoutOutput Rat) (h : ConstFree k s cs inp orc) :
-    runO (scaleOrc k orc) (gridAlg (gscale k s) (cs.map (gscale k)) (scale k inp)) =
+    runO (scaleOrc k orc) (gridAlg (scale k s) (cs.map (scale k)) (scale k inp)) =
       scale k (runO orc (gridAlg s cs inp)) := by
   rw [grid_scaled_run hk, h]
 
 /-- **grid_homogeneous_run_iff**: the side condition is exact -/
 theorem grid_homogeneous_run_iff (hk : 0 < k) (s : Style Rat) (cs : List (Style Rat)) (inp : LayoutInput Rat)
     (orc : Nat → LayoutInput Rat → LayoutOutput Rat) :
-    runO (scaleOrc k orc) (gridAlg (gscale k s) (cs.map (gscale k)) (scale k inp)) =
+    runO (scaleOrc k orc) (gridAlg (scale k s) (cs.map (scale k)) (scale k inp)) =
       scale k (runO orc (gridAlg s cs inp)) ↔ ConstFree k s cs inp orc := by
   refine ⟨fun h => ?_, grid_homogeneous_run_partial hk s cs inp orc⟩
   rw [grid_scaled_run hk] at h
@@ -211,14 +214,11 @@ def wInp : LayoutInput Rat :=
 def wOrc : Nat → LayoutInput Rat → LayoutOutput Rat :=
   fun _ inp => LayoutOutput.fromOuterSize ((MeasureSpec.wrap (1/64) (1/64)).measure inp.knownDimensions inp.availableSpace)
 
-/-- neither the container nor the child has a length in its grid fields: `gscale` and `scale` agree on them -/
-theorem witness_gscale : gscale 16 wGrid = scale 16 wGrid ∧ gscale 16 wChild = scale 16 wChild := ⟨rfl, rfl⟩
-
 /-- the container is 1/128 × 1/16 (the column stays at the child's min-content width 1/256: 4 lines); sixteen times
 larger it is 1/8 × 1/2 (the column grows to 1/8: 2 lines), not 1/8 × 1.  Real taffy (rounding off): the same numbers. -/
 theorem witness_values :
     (runO wOrc (gridAlg wGrid [wChild] wInp)).1.size = ⟨1/128, 1/16⟩ ∧
-    (runO (scaleOrc 16 wOrc) (gridAlg (gscale 16 wGrid) ([wChild].map (gscale 16)) (scale 16 wInp))).1.size =
+    (runO (scaleOrc 16 wOrc) (gridAlg (scale 16 wGrid) ([wChild].map (scale 16)) (scale 16 wInp))).1.size =
       ⟨1/8, 1/2⟩ := by
   rw [← GridKernel.gridAlgK_eq]
   decide +kernel
@@ -227,7 +227,7 @@ theorem witness_values :
 `k = 16` for which the program of the scaled container is not the scaled program -/
 theorem grid_not_homogeneous :
     ¬ ∀ (style : Style Rat) (cs : List (Style Rat)) (inp : LayoutInput Rat),
-      gridAlg (gscale 16 style) (cs.map (gscale 16)) (scale 16 inp) = scaleProg 16 (gridAlg style cs inp) := by
+      gridAlg (scale 16 style) (cs.map (scale 16)) (scale 16 inp) = scaleProg 16 (gridAlg style cs inp) := by
   intro h
   have h1 := congrArg (fun p => (runO (scaleOrc 16 wOrc) p).1.size) (h wGrid [wChild] wInp)
   simp only [runO_scaleProg (by norm_num : (0 : Rat) < 16)] at h1
@@ -236,21 +236,10 @@ theorem grid_not_homogeneous :
   decide +kernel
 
 /-- hence `C04.AlgsHomogeneous` fails at `k = 16` for the evaluator's algorithms with the grid model, whatever the flexbox
-algorithm is (the witness has no length in its grid fields, so `scale` = `gscale` on it) -/
+algorithm is -/
 theorem not_algsHomogeneous_grid (flex : Style Rat → List (Style Rat) → LayoutInput Rat → ProgM Rat (LayoutOutput Rat)) :
-    ¬ AlgsHomogeneous (concreteAlgs flex gridAlg) 16 := by
-  intro h
-  have h0 : gridAlg (scale 16 wGrid) ([wChild].map (scale 16)) (scale 16 wInp) =
-      scaleProg 16 (gridAlg wGrid [wChild] wInp) := h.grid wGrid [wChild] wInp
-  have h1 := congrArg (fun p => (runO (scaleOrc 16 wOrc) p).1.size) h0
-  simp only [runO_scaleProg (by norm_num : (0 : Rat) < 16)] at h1
-  have hv := witness_values
-  rw [witness_gscale.1] at hv
-  have hv2 : (runO (scaleOrc 16 wOrc) (gridAlg (scale 16 wGrid) ([wChild].map (scale 16)) (scale 16 wInp))).1.size =
-      ⟨1/8, 1/2⟩ := hv.2
-  rw [hv2, scale_fst, lo_size, hv.1] at h1
-  revert h1
-  decide +kernel
+    ¬ AlgsHomogeneous (concreteAlgs flex gridAlg) 16 :=
+  fun h => grid_not_homogeneous h.grid
 
 /-- the static side condition fails on the witness (its only column is an implicit `auto` track) -/
 theorem witness_side_condition : ¬ GridFixed wGrid wInp := by decide +kernel
@@ -279,7 +268,7 @@ def childBox (r : LayoutOutput Rat × Trace) : List (Point Rat × Size Rat) :=
 15 is an explicit 0px column, the child is 0 wide at x = 0 (not 31/2 wide at 9/2).  Real taffy: the same numbers. -/
 theorem witness2_values :
     childBox (runO aOrc (gridAlg aGrid [aChild] wInp)) = [(⟨9/4, 0⟩, ⟨31/4, 7⟩)] ∧
-    childBox (runO (scaleOrc 2 aOrc) (gridAlg (gscale 2 aGrid) ([aChild].map (gscale 2)) (scale 2 wInp))) =
+    childBox (runO (scaleOrc 2 aOrc) (gridAlg (scale 2 aGrid) ([aChild].map (scale 2)) (scale 2 wInp))) =
       [(⟨0, 0⟩, ⟨0, 14⟩)] := by
   rw [← GridKernel.gridAlgK_eq]
   decide +kernel
@@ -287,7 +276,7 @@ theorem witness2_values :
 /-- **grid_not_homogeneous_autorepeat** -/
 theorem grid_not_homogeneous_autorepeat :
     ¬ ∀ (style : Style Rat) (cs : List (Style Rat)) (inp : LayoutInput Rat),
-      gridAlg (gscale 2 style) (cs.map (gscale 2)) (scale 2 inp) = scaleProg 2 (gridAlg style cs inp) := by
+      gridAlg (scale 2 style) (cs.map (scale 2)) (scale 2 inp) = scaleProg 2 (gridAlg style cs inp) := by
   intro h
   have h1 := congrArg (fun p => childBox (runO (scaleOrc 2 aOrc) p)) (h aGrid [aChild] wInp)
   simp only [runO_scaleProg (by norm_num : (0 : Rat) < 2)] at h1
@@ -308,10 +297,22 @@ theorem witness2_side_condition :
 
 end witness2
 
-/-! ### 5. `Scalable (Style Rat)` does not scale the grid extension -/
+/-! ### 5. `Scalable (Style Rat)` scales the grid extension -/
 
-/-- `scale k style` leaves `Style.grid` untouched … -/
-theorem scale_ignores_grid (k : Rat) (s : Style Rat) : (scale k s).grid = s.grid := rfl
+/-- `scale k style` scales `Style.grid`: the track sizing functions of both templates and both auto-track lists
+(`length`, `fit-content(px)`; not percentages, not `fr`), and nothing else of it (auto flow, placements) -/
+theorem scale_scales_grid (k : Rat) (s : Style Rat) :
+    (scale k s).grid = scale k s.grid ∧
+    (scale k s).grid.templateRows = scale k s.grid.templateRows ∧
+    (scale k s).grid.templateColumns = scale k s.grid.templateColumns ∧
+    (scale k s).grid.autoRows = scale k s.grid.autoRows ∧
+    (scale k s).grid.autoColumns = scale k s.grid.autoColumns ∧
+    (scale k s).grid.autoFlow = s.grid.autoFlow ∧ (scale k s).grid.row = s.grid.row ∧
+    (scale k s).grid.column = s.grid.column :=
+  ⟨rfl, rfl, rfl, rfl, rfl, rfl, rfl, rfl⟩
+
+/-- the abbreviation used by the lemma files is `scale` -/
+theorem gscale_eq_scale (k : Rat) (s : Style Rat) : gscale k s = scale k s := rfl
 
 /-- a grid with one fixed 40px column and one child -/
 def mGrid : Style Rat :=
@@ -319,11 +320,13 @@ def mGrid : Style Rat :=
     display := .grid, grid := { templateColumns := [.single ⟨.length 40, .length 40⟩],
                                  autoRows := [⟨.length 10, .length 10⟩] } }
 
-/-- … so `C04.AlgsHomogeneous.grid` stated with `scale` fails on any fixed-size track: the container scaled with
-`scale 2` still has a 40px column; with `gscale 2` it has the 80px column -/
-theorem scale_misses_grid_tracks :
-    (runO (scaleOrc 2 aOrc) (gridAlg (scale 2 mGrid) ([wChild].map (scale 2)) (scale 2 wInp))).1.size = ⟨40, 10⟩ ∧
-    (runO (scaleOrc 2 aOrc) (gridAlg (gscale 2 mGrid) ([wChild].map (gscale 2)) (scale 2 wInp))).1.size = ⟨80, 20⟩ ∧
+/-- **scale_scales_grid_tracks**: the container scaled with `scale 2` has the 80px column and the 20px row, and its run
+against the scaled child is the scaled run: ⟨80, 20⟩ = 2 · ⟨40, 10⟩ -/
+theorem scale_scales_grid_tracks :
+    (scale 2 mGrid).grid.templateColumns = [.single ⟨.length 80, .length 80⟩] ∧
+    (scale 2 mGrid).grid.autoRows = [⟨.length 20, .length 20⟩] ∧
+    (runO aOrc (gridAlg mGrid [wChild] wInp)).1.size = ⟨40, 10⟩ ∧
+    (runO (scaleOrc 2 aOrc) (gridAlg (scale 2 mGrid) ([wChild].map (scale 2)) (scale 2 wInp))).1.size = ⟨80, 20⟩ ∧
     scale 2 (runO aOrc (gridAlg mGrid [wChild] wInp)).1.size = ⟨80, 20⟩ := by
   rw [← GridKernel.gridAlgK_eq]
   decide +kernel
@@ -368,10 +371,10 @@ theorem exGrid_fixed : GridFixed exGrid exIn := by decide +kernel
 /-- `grid_homogeneous_partial` at k = 2 and k = 1/4: a padded, gapped fixed-track grid with `space-between`, an
 auto-margin item, a spanning percentage-width baseline item, an item in an implicit row, an absolutely positioned
 child with explicit lines (percentage inset and width) and a hidden child -/
-example : gridAlg (gscale 2 exGrid) ([exKidA, exKidB, exKidC, exKidAbs, exKidHidden].map (gscale 2)) (scale 2 exIn) =
+example : gridAlg (scale 2 exGrid) ([exKidA, exKidB, exKidC, exKidAbs, exKidHidden].map (scale 2)) (scale 2 exIn) =
     scaleProg 2 (gridAlg exGrid [exKidA, exKidB, exKidC, exKidAbs, exKidHidden] exIn) :=
   grid_homogeneous_partial (by norm_num) _ _ _ exGrid_fixed
-example : gridAlg (gscale (1/4) exGrid) ([exKidA, exKidB, exKidC, exKidAbs, exKidHidden].map (gscale (1/4)))
+example : gridAlg (scale (1/4) exGrid) ([exKidA, exKidB, exKidC, exKidAbs, exKidHidden].map (scale (1/4)))
       (scale (1/4) exIn) =
     scaleProg (1/4) (gridAlg exGrid [exKidA, exKidB, exKidC, exKidAbs, exKidHidden] exIn) :=
   grid_homogeneous_partial (by norm_num) _ _ _ exGrid_fixed
@@ -421,16 +424,16 @@ theorem inGrid_constFree : ConstFree 4 inGrid inKids exIn exOrc ∧ ConstFree (1
   decide +kernel
 
 /-- … so `grid_homogeneous_run_partial` applies: intrinsic, `fr`, `fit-content` and `minmax` tracks, a spanning item -/
-example : runO (scaleOrc 4 exOrc) (gridAlg (gscale 4 inGrid) (inKids.map (gscale 4)) (scale 4 exIn)) =
+example : runO (scaleOrc 4 exOrc) (gridAlg (scale 4 inGrid) (inKids.map (scale 4)) (scale 4 exIn)) =
     scale 4 (runO exOrc (gridAlg inGrid inKids exIn)) :=
   grid_homogeneous_run_partial (by norm_num) _ _ _ _ inGrid_constFree.1
-example : runO (scaleOrc (1/4) exOrc) (gridAlg (gscale (1/4) inGrid) (inKids.map (gscale (1/4))) (scale (1/4) exIn)) =
+example : runO (scaleOrc (1/4) exOrc) (gridAlg (scale (1/4) inGrid) (inKids.map (scale (1/4))) (scale (1/4) exIn)) =
     scale (1/4) (runO exOrc (gridAlg inGrid inKids exIn)) :=
   grid_homogeneous_run_partial (by norm_num) _ _ _ _ inGrid_constFree.2
 
 /-- `grid_homogeneous_joint` on the THRESHOLD witness: with the constants scaled too, the run IS the scaled run -/
 example : runO (scaleOrc 16 wOrc) (gridAlgT (scale 16 1) (scale 16 thresholdDist) (scale 16 thresholdItem)
-      (gscale 16 wGrid) ([wChild].map (gscale 16)) (scale 16 wInp)) =
+      (scale 16 wGrid) ([wChild].map (scale 16)) (scale 16 wInp)) =
     scale 16 (runO wOrc (gridAlg wGrid [wChild] wInp)) := by
   rw [grid_homogeneous_joint (by norm_num), runO_scaleProg (by norm_num), gridAlgT_real]
 
@@ -452,10 +455,10 @@ end C04Grid
     "C04Grid.gridAlgT_real", "C04Grid.track_sizing_joint_homogeneous", "C04Grid.explicit_grid_size_joint_homogeneous",
     "C04Grid.grid_homogeneous_joint", "C04Grid.grid_scaled_run", "C04Grid.grid_homogeneous_run_partial",
     "C04Grid.grid_homogeneous_run_iff",
-    "C04Grid.witness_gscale",
     "C04Grid.witness_values", "C04Grid.grid_not_homogeneous", "C04Grid.not_algsHomogeneous_grid",
     "C04Grid.witness_side_condition", "C04Grid.witness2_values", "C04Grid.grid_not_homogeneous_autorepeat",
-    "C04Grid.witness2_side_condition", "C04Grid.scale_ignores_grid", "C04Grid.scale_misses_grid_tracks",
+    "C04Grid.witness2_side_condition", "C04Grid.scale_scales_grid", "C04Grid.gscale_eq_scale",
+    "C04Grid.scale_scales_grid_tracks",
     "C04Grid.exGrid_fixed", "C04Grid.inGrid_run", "C04Grid.inGrid_constFree", "C04Grid.witnesses_not_constFree",
     "C04.gridAlgG_scale", "C04.mkCtx_scale", "C04.computeExplicit_scale", "C04.initializeGridTracks_scale",
     "C04.alignTracks_scale", "C04.gridFinish_sim", "C04.trackSizing_fixed_hom", "C04.initializeGridTracks_fixed",
